@@ -4,11 +4,18 @@
      obj  = {"vecs": [[rat|null]], "odesc": [[k, lbl]], "rdesc": [[k, [lbl]]], "pdesc": [[k, [lbl]]]}
      lbl  = int | string | [int] | null
      answer {"init": [dump], "steps": [{"exc": bool, "store": [dump]} | {"exc": bool, "out": …}]}
+     round 3: obj may carry "meas": string|null (dissimilarity_measure); the session "pk": bool
+     (permute_rdms passes the measure on); every step answer carries "meas": [string|null];
+     `getitem` may carry "idx" = {"kind": "int", "i": k} | {"kind": "list", "l": [k]} |
+     {"kind": "slice", "start": k|null, "stop": k|null, "step": k} | {"kind": "mask", "l": [bool]}
+     instead of "sel" (resolved by `resolveIdx` against the number of RDMs of the source)
+   c10.resolve : {"n": n, "idx": idx} → [positions] | null
    c10.nfrom   : {"len": n} → [nFromReduced len, nFromLength len]
    c10.roundtrip : {"n": n, "vec": [...]} → matrix and vector∘matrix
 -/
 import Rsa.Core.Wire
 import Rsa.Core.Rdm
+import Rsa.Core.C10Meas
 import Rsa.Gen.C10
 
 open Lean Rsa.Wire Rsa.Rdm
@@ -79,12 +86,31 @@ def ofDf (rows : List (DfRow Rat)) : Json :=
 
 def asVals (j : Json) : R (List Lbl) := fld j "vals" >>= asList asLbl
 
+def asIdx (j : Json) : R Idx := do
+  match ← fld j "kind" >>= asStr with
+  | "int" => pure (Idx.int (← fld j "i" >>= asInt))
+  | "list" => pure (Idx.list (← fld j "l" >>= asList asInt))
+  | "mask" => pure (Idx.mask (← fld j "l" >>= asList asBool))
+  | "slice" => pure (Idx.slice (← asOpt asInt (fldD j "start" Json.null))
+      (← asOpt asInt (fldD j "stop" Json.null)) (← fld j "step" >>= asInt))
+  | k => throw s!"unknown index kind {k}"
+
+def ofMeas (m : MStore) : Json := ofList (ofOpt Json.str) m
+
 /-- parse a store-changing operation -/
-def asOp (name : String) (j : Json) : R (Option Op) := do
+def asOp (s : Store Rat) (name : String) (j : Json) : R (Option Op) := do
   let src := fld j "src" >>= asNat
   let by_ := fld j "by" >>= asStr
   match name with
-  | "getitem" => pure (some (.getitem (← src) (← fld j "sel" >>= asList asNat)))
+  | "getitem" =>
+      match fldD j "idx" Json.null with
+      | Json.null => pure (some (.getitem (← src) (← fld j "sel" >>= asList asNat)))
+      | ji =>
+        let i ← src
+        let idx ← asIdx ji
+        -- an index numpy rejects selects "row n" here, which `getitem` rejects as out of range
+        let n := (s[i]?.map (·.nRdm)).getD 0
+        pure (some (.getitem i ((resolveIdx n idx).getD [n])))
   | "subset" => pure (some (.subset (← src) (← by_) (← asVals j)))
   | "subsample" => pure (some (.subsample (← src) (← by_) (← asVals j)))
   | "subset_pattern" => pure (some (.subsetPattern (← src) (← by_) (← asVals j)))
@@ -133,24 +159,33 @@ def session (j : Json) : R Json := do
   let objs ← fld j "objs" >>= asList asObj
   let ops ← fld j "ops" >>= asArr
   let cm ← asBool (fldD j "cm" (Json.bool true))
+  let pk ← asBool (fldD j "pk" (Json.bool false))
+  let meas0 ← (← fld j "objs" >>= asArr).mapM (fun oj => asOpt asStr (fldD oj "meas" Json.null))
   let mut s : Store Rat := objs
+  let mut m : MStore := meas0
   let mut out : Array Json := #[]
   for oj in ops do
     let name ← fld oj "op" >>= asStr
     if name == "sort_unknown" then
       -- `sort_by(desc=<neither 'alpha' nor a list>)`: not an operation of the model, the library
       -- raises ValueError and nothing changes
-      out := out.push (obj [("exc", Json.bool true), ("store", ofStore s)])
+      out := out.push (obj [("exc", Json.bool true), ("store", ofStore s), ("meas", ofMeas m)])
     else
-    match ← asOp name oj with
+    match ← asOp s name oj with
     | some op =>
-      match stepE cm s op with
-      | some s' =>
+      match stepME pk cm (s, m) op with
+      | some (s', m') =>
         s := s'
-        out := out.push (obj [("exc", Json.bool false), ("store", ofStore s)])
-      | none => out := out.push (obj [("exc", Json.bool true), ("store", ofStore s)])
+        m := m'
+        out := out.push (obj [("exc", Json.bool false), ("store", ofStore s), ("meas", ofMeas m)])
+      | none => out := out.push (obj [("exc", Json.bool true), ("store", ofStore s), ("meas", ofMeas m)])
     | none => out := out.push (← query name s oj)
   pure (obj [("init", ofStore objs), ("steps", Json.arr out)])
+
+def resolve (j : Json) : R Json := do
+  let n ← fld j "n" >>= asNat
+  let idx ← fld j "idx" >>= asIdx
+  pure (ofOpt (ofList ofNat) (resolveIdx n idx))
 
 def nfrom (j : Json) : R Json := do
   let n ← fld j "len" >>= asNat
@@ -167,6 +202,7 @@ def handle : Handler := fun op j =>
   match op with
   | "c10.session" => some (session j)
   | "c10.nfrom" => some (nfrom j)
+  | "c10.resolve" => some (resolve j)
   | "c10.roundtrip" => some (roundtrip j)
   | _ => none
 
